@@ -318,7 +318,13 @@ where
                     return Err(Error::RegisterReadError);
                 }
                 self.read_data(&mut csd.data)?;
-                Ok(Csd::V2(csd))
+                if csd.csd_ver() == 0 {
+                    // A standard-capacity card (even a version 2 one) has a
+                    // version 1 register
+                    Ok(Csd::V1(CsdV1 { data: csd.data }))
+                } else {
+                    Ok(Csd::V2(csd))
+                }
             }
             None => Err(Error::CardNotFound),
         }
